@@ -441,11 +441,24 @@ pub fn run(e: &Engine) {
             });
             let pairs = proptest::collection::vec((longkey, prop_oneof![Just(u64::MAX), Just(1u64 << 32), Just((1u64 << 32) - 1), 0u64..3]), 0..8).prop_map(gen::sort_dedup);
             prop_oneof![
-                proptest::collection::vec((kind_strategy(), pairs), 7..=20),
+                4 => proptest::collection::vec((kind_strategy(), pairs.clone()), 7..=20),
+                // more streams than fit a machine word's worth of flags, or a byte's
+                1 => proptest::collection::vec((kind_strategy(), pairs), 31..=70),
                 // few streams, long keys sharing long prefixes with differing lengths and tails
-                proptest::collection::vec((kind_strategy(), gen::with_long_keys()), 2..=5),
+                3 => proptest::collection::vec((kind_strategy(), gen::with_long_keys()), 2..=5),
             ]
             .prop_map(|streams| Case { streams })
+        },
+        |c| c.to_json(),
+        check,
+    );
+    e.run_prop(
+        "hundreds-of-streams",
+        e.tier.pick(48, 1_000),
+        || {
+            let key = proptest::collection::vec(prop_oneof![Just(b'a'), Just(b'b'), Just(b'c')], 0..=3);
+            let pairs = proptest::collection::vec((key, 0u64..3), 0..5).prop_map(gen::sort_dedup);
+            proptest::collection::vec((kind_strategy(), pairs), 250..=260).prop_map(|streams| Case { streams })
         },
         |c| c.to_json(),
         check,
